@@ -899,13 +899,18 @@ ALL.update(C09=C09, C10=C10, C11=C11, C12=C12, C14=C14, C18=C18)
 def C01():
     from . import r_reg
     chk = Check("C01", "other",
-                "Decides ONLY the structural clauses of C01, for every knot multiplicity pattern (all non-decreasing "
-                "sequences up to the length bound over up to five distinct values, orders 0..3): generation returns "
-                "exactly m-p-1 valid splines; the i-th function is supported exactly on its knot span [t_i, t_{i+p+1}] "
-                "(zero elsewhere, not identically zero on a positive-width part of the span, interval-free if the span "
-                "has no width); both construction routes give identical functions; no division by an exactly-zero "
-                "knot difference. NOT decided: that the polynomial pieces equal the Cox-de Boor B-splines, "
-                "continuity across knots, partition of unity - these are identities between computed numbers.")
+                "For every knot multiplicity pattern (all non-decreasing sequences up to the length bound over up to five "
+                "distinct values, orders 0..3): generation returns exactly m-p-1 valid splines; the i-th function is "
+                "supported exactly on its knot span [t_i, t_{i+p+1}] (zero elsewhere, not identically zero on a "
+                "positive-width part of the span, interval-free if the span has no width); both construction routes give "
+                "identical functions; no division by an exactly-zero knot difference. AND the polynomial pieces ARE the "
+                "Cox-de Boor B-splines, by induction over the order (R-REG.cdb): base - the order-0 functions are the "
+                "indicator functions (coefficient exactly 1); step - applyRecursionRelation<k>, evaluated on OPAQUE "
+                "lower-order splines with exact knots, is exactly the linear map (x-t_i)/(t_{i+k-1}-t_i) s + (t_{i+k}-x)/"
+                "(t_{i+k}-t_{i+1}) s' with zero-denominator terms dropped (each weight times its one knot difference is a "
+                "polynomial of degree <= 1 in knot and midpoint; two spacings per pattern); wiring - the generated functions "
+                "equal the reference recursion exactly on every pattern. Continuity and partition of unity then are "
+                "theorems about Cox-de Boor B-splines; rounding is not decided.")
     chk.trust(*REG_TRUST)
     chk.assume(REG_ASSUME[0], "knot values enter the generator's control flow only through comparisons (equal / "
                "smaller), so the multiplicity pattern (order type of the knot sequence) determines count and supports")
@@ -920,6 +925,8 @@ def C01():
         total += r_reg.run_jobs(chk, u, "R-REG.divzero", _jobs("r_reg_val", "generator_suite", range(0, 5), maxlen=4,
                                                                orders=(0, 1, 2, 3))[:-1],
                                 view=lambda st: {k: v for k, v in st.items() if "division" in k[2]})
+        total += r_reg.run_jobs(chk, u, "R-REG.cdb", [("bsv.r_reg_val", "coxdeboor_suite", dict(maxlen=maxlen, ns=[L]))
+                                                      for L in range(2, maxlen + 1)])
     chk.note("regions_evaluated", total)
     chk.note("knot_sequence_length_bound", maxlen)
     chk.exhaustive = True
